@@ -15,6 +15,7 @@ import (
 	"time"
 
 	"google.golang.org/genproto/googleapis/api/annotations"
+	"google.golang.org/genproto/googleapis/api/serviceconfig"
 	"google.golang.org/grpc"
 	"google.golang.org/grpc/credentials/insecure"
 	"google.golang.org/grpc/reflection"
@@ -48,6 +49,7 @@ type c11Rule struct {
 	verb, tmpl, body string
 	key              c11Key
 	add              []c11Rule
+	cfg              bool // installed through ServiceConfigOption instead of a proto annotation
 }
 type c11Method struct {
 	id        int
@@ -63,7 +65,9 @@ const (
 
 var c11Methods = []c11Method{
 	{1, "SvcA", "A1", 1, &c11Rule{verb: "GET", tmpl: "/c11/aa/{id}", key: c11Key{11, c11GET, true}}},
-	{2, "SvcA", "A2", 2, nil},
+	// A2's only rule comes from the service configuration (ServiceConfigOption, selector c11.SvcA.A2): it has
+	// to be bound again whenever the method is registered again
+	{2, "SvcA", "A2", 2, &c11Rule{verb: "GET", tmpl: "/c11/cfg/{id}", key: c11Key{19, c11GET, true}, cfg: true}},
 	{3, "SvcB", "B1", 3, &c11Rule{verb: "POST", tmpl: "/c11/bp", body: "*", key: c11Key{12, c11POST, true}, add: []c11Rule{
 		{verb: "GET", tmpl: "/c11/bx/{id}", key: c11Key{13, c11GET, true}},
 		{verb: "GET", tmpl: "/c11/by/{id}", key: c11Key{14, c11GET, true}},
@@ -189,7 +193,7 @@ func c11BuildFile(path string, svcs []string) protoreflect.FileDescriptor {
 				continue
 			}
 			md := &descriptorpb.MethodDescriptorProto{Name: proto.String(m.name), InputType: proto.String(".c11.Req"), OutputType: proto.String(".c11.Rep")}
-			if m.rule != nil {
+			if m.rule != nil && !m.rule.cfg {
 				dr := dynRule{Verb: m.rule.verb, Tmpl: m.rule.tmpl, Body: m.rule.body}
 				for _, a := range m.rule.add {
 					dr.Additional = append(dr.Additional, dynRule{Verb: a.verb, Tmpl: a.tmpl, Body: a.body})
@@ -299,7 +303,14 @@ func (e *c11Env) newMux() *larking.Mux {
 	if err := files.RegisterFile(e.local); err != nil {
 		panic(err)
 	}
-	m, err := larking.NewMux(larking.FilesOption(files))
+	sc := &serviceconfig.Service{Http: &annotations.Http{}}
+	for _, cm := range c11Methods {
+		if cm.rule != nil && cm.rule.cfg {
+			dr := dynRule{Verb: cm.rule.verb, Tmpl: cm.rule.tmpl, Body: cm.rule.body, Selector: "c11." + cm.svc + "." + cm.name}
+			sc.Http.Rules = append(sc.Http.Rules, dr.toProto())
+		}
+	}
+	m, err := larking.NewMux(larking.FilesOption(files), larking.ServiceConfigOption(sc))
 	if err != nil {
 		panic(err)
 	}
